@@ -589,6 +589,7 @@ func TestVerifC09(t *testing.T) {
 	c.Assume("a missing value counts as the empty value, observed when the result lacking it is projected")
 	c09Space(c, mc.Pick(c, 6, 7))
 	c09Ladder(c)
+	mc.FirstCalls(c, c09Calls, "TestVerifC09Fresh", "VERIF_C09_CALLS")
 	if code := c.Finish(); code != 0 {
 		os.Exit(code)
 	}
